@@ -1296,7 +1296,7 @@ func vSerReplay(mode string) func(c *vCtx, v *vViolation) bool {
 func init() {
 	vRegister(&vCheck{
 		ID: "C07", Level: "model_checking", Engine: "histmc",
-		Rule:        "For each of the eight kinds (several parameterisations each; hybrid with 4-8 sub-index presence patterns) BFS over Add/Remove/Flush histories (plus the untrained/empty state); in every reached state: WriteTo byte count == stream length, source answers unchanged by writing, ReadFrom into a FRESH index through a counting reader over stream++sentinel returns and consumes exactly the stream length, removed ids absent from the reloaded private state, every observation of the reloaded index == source (tie-tolerant, float tolerance), and every operation of the alphabet applied in lock-step to source and reloaded index for 1 (quick) / 2 (thorough) further steps yields the same results. Hybrid: four writers, one concatenated reader. Non-trivial = distinct (kind, non-empty state).",
+		Rule:        "For each of the eight kinds (several parameterisations each; hybrid with 4-8 sub-index presence patterns) BFS over Add/Remove/Flush histories (plus the untrained/empty state); in every reached state: WriteTo byte count == stream length, source answers unchanged by writing, ReadFrom into a FRESH index through a counting reader over stream++sentinel returns and consumes exactly the stream length, removed ids absent from the reloaded private state, every observation of the reloaded index == source (tie-tolerant, float tolerance), and every operation of the alphabet applied in lock-step to source and reloaded index for 1 (quick) / 2 (thorough) further steps yields the same results. Hybrid: four writers, one concatenated reader. Non-trivial = distinct (kind, non-empty state). Hybrid kinds are additionally written with ONE writer handed over for all four sections and reloaded from that stream.",
 		Assumptions: []string{"node-id queries are not used (PQ/IVFPQ do not persist raw vectors)", "hnsw states are inside the exactness regime (ef >= nodes), so a flush-on-write does not change answers"},
 		Shards:      func(tier string) []vShard { return vSerShards("c07", tier) },
 		Replay:      vSerReplay("c07"),
